@@ -1,6 +1,7 @@
 package gosym
 
 import (
+	"path/filepath"
 	"fmt"
 	"go/token"
 	"go/types"
@@ -37,6 +38,7 @@ type Config struct {
 	StopOnFirst    bool
 	PerLabelCap    int // stop recording more than this many violations per label (still explored)
 	KeepAllSamples bool
+	Deep           bool // what zz.Deep() answers: harnesses widen their bounds in the thorough tier
 }
 
 func DefaultConfig() Config {
@@ -655,6 +657,8 @@ type Engine struct {
 	rtErrStr  types.Type
 	Fset      *token.FileSet
 	typeCache sync.Map
+	// Dropped: harness files that did not type-check against the tree (file -> errors); they were loaded empty
+	Dropped map[string][]string
 }
 
 type intrinsic func(fr *frame, args []value) value
@@ -718,6 +722,14 @@ func (e *Engine) Run(pkgPath, fnName string) (*RunResult, error) {
 	}
 	fn := pkg.Func(fnName)
 	if fn == nil {
+		if len(e.Dropped) > 0 {
+			var why []string
+			for file, es := range e.Dropped {
+				why = append(why, filepath.Base(file)+": "+es[0])
+			}
+			sort.Strings(why)
+			return nil, fmt.Errorf("harness %s.%s not runnable on this tree: harness files that no longer type-check were left out (%s)", pkgPath, fnName, strings.Join(why, "; "))
+		}
 		return nil, fmt.Errorf("harness %s.%s not found", pkgPath, fnName)
 	}
 	res := &RunResult{Harness: fnName, ByStatus: map[string]int{}, Reach: map[string]int{}, ViolCount: map[string]int{},
